@@ -10,41 +10,28 @@ From SCC Require Import Base.Sexp Lang.AxSyn Sem.AxSem Model.ParMoves Model.Back
      Model.Linearize Model.LinCheck Generated.Constants Proof.LinBasics
      Proof.X86State Proof.X86Sel Proof.X86Exec Proof.X86ParMoves Proof.SubstGraph Proof.X86Subst
      Proof.X86SimRel Proof.X86SimStmt Proof.X86SimAddr.
+From SCC Require Export Proof.SimFrag.
 Import ListNotations.
 Open Scope Z_scope.
 Open Scope list_scope.
+(* names that lived in this file before they moved to Proof/SimFrag.v (kept for qualified uses) *)
+Notation is_cf_binding := SimFrag.is_cf_binding (only parsing).
+Notation ctx_cf := SimFrag.ctx_cf (only parsing).
+Notation is_nil := SimFrag.is_nil (only parsing).
+Notation stmt_cf := SimFrag.stmt_cf (only parsing).
+Notation clauses_cf := SimFrag.clauses_cf (only parsing).
+Notation stmt_cf_create := SimFrag.stmt_cf_create (only parsing).
+Notation split_last0 := SimFrag.split_last0 (only parsing).
+Notation find_clause_pos := SimFrag.find_clause_pos (only parsing).
+Notation cls_sig_length := SimFrag.cls_sig_length (only parsing).
+Notation sig_match_join := SimFrag.sig_match_join (only parsing).
+Notation NoDup_app_head := SimFrag.NoDup_app_head (only parsing).
+Notation split_last1_inv := SimFrag.split_last1_inv (only parsing).
+Notation find_clause_total := SimFrag.find_clause_total (only parsing).
+Notation split_last1_app := SimFrag.split_last1_app (only parsing).
 
 (* ---------- the fragment: integers and closures without captured variables ---------- *)
-Definition is_cf_binding (b : binding) : bool :=
-  match bchi b, bty b with Ext, I64 => true | Cns, Decl _ => true | _, _ => false end.
-Definition ctx_cf (c : ctx) : bool := forallb is_cf_binding c.
-Definition is_nil {X} (l : list X) : bool := match l with [] => true | _ => false end.
-Fixpoint stmt_cf (s : stmt) : bool :=
-  match s with
-  | Substitute re next => forallb (fun p : binding * ident => is_cf_binding (fst p)) re && stmt_cf next
-  | Call _ _ | Exit _ | Invoke _ _ _ _ => true
-  | Literal _ _ next | Op _ _ _ _ next | PrintI64 _ _ next => stmt_cf next
-  | IfC _ _ _ t e => stmt_cf t && stmt_cf e
-  | Create _ _ (Some []) cls next =>
-      negb (is_nil cls)
-      && (fix go (cls : list (ident * ctx * stmt)) : bool :=
-            match cls with
-            | [] => true
-            | (_, cx, b) :: r => ctx_cf cx && stmt_cf b && go r
-            end) cls
-      && stmt_cf next
-  | _ => false
-  end.
-Definition clauses_cf (cls : list clause) : bool := forallb (fun c => ctx_cf (cl_ctx c) && stmt_cf (cl_body c)) cls.
-Lemma stmt_cf_create v t env cls next :
-  stmt_cf (Create v t env cls next) = true -> env = Some [] /\ cls <> [] /\ clauses_cf cls = true /\ stmt_cf next = true.
-Proof.
-  cbn [stmt_cf]. destruct env as [[|b env]|]; try discriminate. intros H.
-  apply andb_true_iff in H as [H N]. apply andb_true_iff in H as [E G].
-  split; [reflexivity|]. split; [destruct cls; [discriminate|congruence]|]. split; [|exact N].
-  clear E N. induction cls as [|[[x cx] b] r IH]; [reflexivity|]. cbn [clauses_cf forallb cl_ctx cl_body fst snd].
-  apply andb_true_iff in G as [G1 G2]. rewrite G1. exact (IH G2).
-Qed.
+(* is_cf_binding, ctx_cf, stmt_cf, clauses_cf, stmt_cf_create: Proof/SimFrag.v *)
 
 (* ---------- what code_statement emits ---------- *)
 Section CC.
@@ -191,7 +178,7 @@ Proof.
 Qed.
 
 Lemma nh_sub_label f y : is_hash_label f = false -> is_hash_label (f +++ "_" +++ y) = false.
-Proof. destruct f as [|c f]; cbn; auto. Qed.
+Proof. exact (hash_name_sub f y). Qed.
 Lemma x_load_nil cx lc : x_load [] cx lc = Ok ([], lc).
 Proof. reflexivity. Qed.
 
@@ -362,8 +349,6 @@ Proof.
     eexists; split; [reflexivity|]. split; [rd; reflexivity|pres].
 Qed.
 
-Lemma split_last0 (c : ctx) : Backend.split_last 0 c = Ok (c, []).
-Proof. unfold Backend.split_last. cbn [Nat.leb]. rewrite Nat.sub_0_r, firstn_all, skipn_all. reflexivity. Qed.
 Lemma x_store_nil c lc : x_store [] c lc = dor t <- x_fresh Fst c; Ok (x_load_immediate t 0, lc).
 Proof. reflexivity. Qed.
 
@@ -432,37 +417,7 @@ Qed.
 
 
 (* ---------- Invoke ---------- *)
-Lemma find_clause_pos : forall cls xs tag cl i,
-  cls_sig cls xs = true -> find_clause cls tag = Some cl ->
-  exists k x, nth_error cls k = Some cl /\ nth_error xs k = Some x /\
-              xtor_position xs tag i = Ok (i + N.of_nat k)%N /\
-              find (fun x => ident_eqb (xname x) tag) xs = Some x /\ sig_match (cl_ctx cl) (xargs x) = true.
-Proof.
-  induction cls as [|c cr IH]; intros [|x xr] tag cl i CS FC; cbn [cls_sig] in CS; try discriminate.
-  apply andb_true_iff in CS as [CS CSr]. apply andb_true_iff in CS as [EQ SM]. apply ident_eqb_eq in EQ.
-  unfold find_clause in FC. cbn [find xtor_position] in *. rewrite <- EQ.
-  destruct (ident_eqb (cl_xtor c) tag) eqn:T.
-  - inversion FC; subst cl. exists O, x. repeat split; auto. f_equal. lia.
-  - destruct (IH xr tag cl (i + 1)%N CSr FC) as (k & x' & A & B & C & D & E).
-    exists (S k), x'. repeat split; auto. rewrite C. f_equal. lia.
-Qed.
-Lemma cls_sig_length : forall cls xs, cls_sig cls xs = true -> List.length cls = List.length xs.
-Proof.
-  induction cls as [|c cr IH]; intros [|x xr] H; cbn [cls_sig] in H; try discriminate; [reflexivity|].
-  apply andb_true_iff in H as [_ H]. cbn. f_equal. auto.
-Qed.
-Lemma sig_match_join a b s0 : sig_match a s0 = true -> sig_match b s0 = true -> sig_match a b = true.
-Proof.
-  rewrite !sig_match_iff. unfold same_kt. intros A B. revert b B.
-  induction A as [|x y a s1 [K T] _ IH]; intros b B; inversion B as [|x' y' b' s1' [K' T'] B']; subst; constructor.
-  - split; congruence.
-  - auto.
-Qed.
-Lemma NoDup_app_head {X} (a b : list X) : NoDup (a ++ b) -> NoDup a.
-Proof.
-  induction a as [|x a IH]; cbn; [constructor|]. intros H. inversion H; subst. constructor; auto.
-  intros I. apply H2. apply in_app_iff. now left.
-Qed.
+(* find_clause_pos, cls_sig_length, sig_match_join, NoDup_app_head, split_last1_inv/_app, find_clause_total: Proof/SimFrag.v *)
 Lemma rel_prefix c0 b e0 ev s sp : rel (c0 ++ [b]) (e0 ++ [ev]) s sp -> rel c0 e0 s sp.
 Proof.
   intros R. pose proof (rel_length R) as LEN. rewrite !app_length in LEN. cbn [List.length] in LEN.
@@ -472,11 +427,6 @@ Proof.
   - intros i x v Hi. assert (Li : (i < List.length e0)%nat) by (apply nth_error_Some; congruence).
     destruct (Vals i x v) as (b' & Hb' & V); [rewrite nth_error_app1 by exact Li; exact Hi|].
     exists b'. split; [|exact V]. rewrite nth_error_app1 in Hb' by lia. exact Hb'.
-Qed.
-Lemma split_last1_inv {X} (l : list X) l0 x : AxSem.split_last 1 l = Some (l0, [x]) -> l = l0 ++ [x].
-Proof.
-  unfold AxSem.split_last. destruct (Nat.leb 1 (List.length l)); [|discriminate]. intros H. inversion H.
-  rewrite <- (firstn_skipn (List.length l - 1) l) at 1. reflexivity.
 Qed.
 
 Theorem sim_invoke c e s sp v tag t args code lc lc' pc e0 x tn cls ce cl e1 :
@@ -601,20 +551,6 @@ Qed.
 
 (* progress at Invoke: under the relation a linearly well-typed invoke finds its closure, its clause and
    its arguments *)
-Lemma find_clause_total : forall cls xs tag x,
-  cls_sig cls xs = true -> find (fun x => ident_eqb (xname x) tag) xs = Some x -> exists cl, find_clause cls tag = Some cl.
-Proof.
-  induction cls as [|c cr IH]; intros [|x0 xr] tag x CS FX; cbn [cls_sig] in CS; try discriminate.
-  apply andb_true_iff in CS as [CS CSr]. apply andb_true_iff in CS as [EQ _]. apply ident_eqb_eq in EQ.
-  unfold find_clause. cbn [find] in *. rewrite EQ. destruct (ident_eqb (xname x0) tag); [eauto|].
-  exact (IH xr tag x CSr FX).
-Qed.
-Lemma split_last1_app {X} (l0 : list X) x : AxSem.split_last 1 (l0 ++ [x]) = Some (l0, [x]).
-Proof.
-  unfold AxSem.split_last. rewrite app_length. cbn [List.length]. replace (Nat.leb 1 (List.length l0 + 1)) with true by (symmetry; apply Nat.leb_le; lia).
-  replace (List.length l0 + 1 - 1)%nat with (List.length l0) by lia.
-  rewrite firstn_app, firstn_all, Nat.sub_diag, skipn_app, skipn_all, Nat.sub_diag. cbn. now rewrite app_nil_r.
-Qed.
 Lemma invoke_progress c e s sp v tag t args :
   rel c e s sp -> lin_check (sigs_of p) c (Invoke v tag t args) = true ->
   exists e0 x tn cls cl e1,
